@@ -437,7 +437,6 @@ def judge(ctx, parent, child, k, records, kind, tag, history="single"):
     """All clauses of the statement for one call child = parent.refined(k)."""
     cls = cls_name(parent)
     d = G.DIM[kind]
-    nvl = G.NVERT[kind]
     N1 = NCHILD[kind]
     mk = lambda name: f"{name}:{cls}"                                             # noqa: E731
     info = dict(cls=cls, k=k, case=tag, history=history)
@@ -550,7 +549,6 @@ def judge(ctx, parent, child, k, records, kind, tag, history="single"):
     eps = 1e-9 * float((hi - lo).max())
     parent_of = -np.ones(ntc, dtype=np.int64)
     nmatch = np.zeros(ntc, dtype=np.int64)
-    S_acc = [None] * ntc
     chunk = max(1, 2_000_000 // max(ntp, 1))
     pairs_c, pairs_p, pairs_S, pairs_sc = [], [], [], []
     for c0 in range(0, ntc, chunk):
@@ -668,7 +666,6 @@ def judge(ctx, parent, child, k, records, kind, tag, history="single"):
         kcs = list(fmap)
         src = np.array([fmap_src[kc] for kc in kcs], dtype=np.int64)   # (n, 4): c, f, K, Fp
         # gather ordered facet vertices (own tables keep the cyclic order of quadrilateral faces)
-        nvf = len(faces[0])
         fv = np.array(faces, dtype=np.int64)                            # (nF, nvf)
         Xc = Ac[:, tc[fv[src[:, 1]].T, src[:, 0][None, :]]]             # (D, nvf, n)
         Xp = Ap[:, tp[fv[src[:, 3]].T, src[:, 2][None, :]]]
@@ -724,8 +721,6 @@ def hanging_nodes(gc, Pc, tc, Ac, nonneg):
     from scipy.spatial import cKDTree
     if gc.kind == "hex" and not (gc.planar_defect <= 1e-10).all():
         return None
-    D, nv = Pc.shape
-    ntc = tc.shape[1]
     V = Pc[:, tc]
     cen = V.mean(axis=1)
     rad = np.sqrt(((V - cen[:, None, :]) ** 2).sum(axis=0)).max(axis=0) * (1 + 1e-9)
@@ -1024,7 +1019,8 @@ def uniform_case(kind):
 def second_order_case(ctx, k_):
     rng = ctx.rng()
     kind = ("tri", "quad", "tet", "hex")[k_ % 4]
-    nmax = ctx.scale({"tri": 24, "quad": 16, "tet": 12, "hex": 6}[kind], {"tri": 60, "quad": 40, "tet": 30, "hex": 12}[kind])
+    nmax = ctx.scale({"tri": 24, "quad": 16, "tet": 12, "hex": 6}[kind],
+                     {"tri": 60, "quad": 40, "tet": 30, "hex": 12}[kind])
     m1, desc = base_mesh(ctx, rng, kind, nmax, allow_inexact=bool(k_ % 3 == 0))
     m2 = G.mesh_class(kind, 2).from_mesh(m1)
     m2, tdesc = add_tags(ctx, rng, m2)
